@@ -4,6 +4,8 @@ import (
 	"context"
 	"errors"
 	"fmt"
+	goos "os"
+	"path/filepath"
 	"sort"
 	"strings"
 	"time"
@@ -89,6 +91,25 @@ func c03Sprinkle(g *sim.Stream, src string) string {
 		lines = append(lines[:pos], append([]string{ins}, lines[pos:]...)...)
 	}
 	return strings.Join(lines, "\n")
+}
+
+// c03ModuleDir writes this run's module files to a scratch directory (for
+// LocalImporter); the directory is reused and overwritten run after run.
+func c03ModuleDir(files map[string]string) string {
+	base := goos.Getenv("VERIF_OUT")
+	if base == "" {
+		base = goos.TempDir()
+	} else {
+		base = dirOf(base)
+	}
+	d := filepath.Join(base, fmt.Sprintf("c03mods-%d", goos.Getpid()))
+	goos.RemoveAll(d)
+	for n, t := range files {
+		p := filepath.Join(d, n)
+		goos.MkdirAll(filepath.Dir(p), 0o755)
+		goos.WriteFile(p, []byte(t), 0o644)
+	}
+	return d
 }
 
 func init() {
@@ -193,7 +214,24 @@ func runC03(rc *fw.RunCtx) {
 	}
 	cfgNames := risor.NewConfig(opts...).GlobalNames()
 	sort.Strings(cfgNames)
-	imp := importer.NewFSImporter(importer.FSImporterOptions{GlobalNames: cfgNames, SourceFS: sfs, Extensions: []string{".risor", ".rsr"}})
+	// modules that cannot be imported: one does not compile, one does not parse
+	sfs.Files["badcompile.risor"] = "x := 1\ny := undefined_name_in_module + x\n"
+	sfs.Files["badparse.risor"] = "func broken( {\n"
+	if g.Chance(1, 2) {
+		src += "\n" + []string{
+			"try(func() { import badcompile }, func(e) { return string(e) })",
+			"try(func() { import badparse }, func(e) { return string(e) })",
+			"spawn(func() { import badcompile }).wait()",
+			"import badcompile",
+		}[g.Intn(4)] + "\n"
+	}
+	var imp importer.Importer
+	if g.Chance(1, 2) {
+		imp = importer.NewFSImporter(importer.FSImporterOptions{GlobalNames: cfgNames, SourceFS: sfs, Extensions: []string{".risor", ".rsr"}})
+	} else {
+		rc.Hit("importer_local")
+		imp = importer.NewLocalImporter(importer.LocalImporterOptions{GlobalNames: cfgNames, SourceDir: c03ModuleDir(sfs.Files), Extensions: []string{".risor", ".rsr"}})
+	}
 	opts = append(opts, risor.WithOS(sos), risor.WithImporter(imp))
 	if f.Chance(1, 2) {
 		n := 1 + f.Intn(3)
@@ -264,6 +302,7 @@ func runC03(rc *fw.RunCtx) {
 	}
 	finished := false
 	second := g.Chance(1, 2)
+	bgLater := g.Chance(1, 3)
 	cloneCall := g.Chance(1, 3)
 	var staleCancel context.CancelFunc
 	s.Go("main", "main", func() {
@@ -286,6 +325,10 @@ func runC03(rc *fw.RunCtx) {
 			// cancelled during this run (stale cancel)
 			ctx3, cancel3 := context.WithCancel(context.Background())
 			staleCancel = cancel3
+			if bgLater {
+				// a context that can never be cancelled, after cancellable ones
+				ctx3 = context.Background()
+			}
 			s.AtStep(s.Step+f.Intn(60), "stale-cancel", func() { rc.Hit("fault_stale_cancel"); cancel1() })
 			api("risor.Eval#2", func() {
 				_, err := risor.Eval(ctx3, "func later(x) { return x + 1 }\nn := 0\nfor i := 0; i < 30; i++ { n += i }\nn", ropts...)
